@@ -103,6 +103,9 @@ func (s *Sess) call(in ssa.CallInstruction, st *State) []Val {
 			return r
 		}
 	}
+	if s.sortFuncIntrinsic(in, name, args, st) {
+		return nil
+	}
 	if r, ok := s.fmtIntrinsic(in, name, args, st); ok {
 		return r
 	}
@@ -1158,5 +1161,75 @@ func paramOnlyCalled(p *ssa.Parameter) bool {
 			return false
 		}
 	}
+	return true
+}
+
+// sortFuncIntrinsic models slices.SortFunc(x, cmp) for a comparator that is a closure of the repository
+// under contract: the elements of x are permuted (here: havoced), and afterwards every pair in index
+// order satisfies the comparator's contract with a non-positive result. The comparator's own contract
+// is checked against its body like any other function's.
+func (s *Sess) sortFuncIntrinsic(in ssa.CallInstruction, name string, args []Val, st *State) bool {
+	if name != "slices.SortFunc" && name != "slices.SortStableFunc" {
+		return false
+	}
+	com := in.Common()
+	if len(com.Args) != 2 || len(args) < 2 {
+		return false
+	}
+	mc, ok := com.Args[1].(*ssa.MakeClosure)
+	var cf *ssa.Function
+	if ok {
+		cf, _ = mc.Fn.(*ssa.Function)
+	} else if f, ok := com.Args[1].(*ssa.Function); ok {
+		cf = f
+	}
+	if cf == nil || len(cf.Params) != 2 {
+		return false
+	}
+	ct := s.eng.contractFor(cf)
+	if ct == nil || len(ct.Ensures) == 0 {
+		return false
+	}
+	sl, ok := com.Args[0].Type().Underlying().(*types.Slice)
+	if !ok {
+		return false
+	}
+	x := args[0]
+	key := elemRegion(sl.Elem())
+	srt := s.elemSort(sl.Elem())
+	// permutation of the elements: the backing store of x is havoced (a coarse model: contents are
+	// not related to the contents before, only the order fact below is known)
+	s.havocRegion(st, key)
+	H := s.region(st, key, srt)
+	s.nfresh++
+	rf := fmt.Sprintf("|sortres!%d|", s.nfresh)
+	s.emitDecl(fmt.Sprintf("(declare-fun %s (Int Int) Int)", rf))
+	iv, jv := fmt.Sprintf("|si!%d|", s.nfresh), fmt.Sprintf("|sj!%d|", s.nfresh)
+	elem := func(ix string) string {
+		return fmt.Sprintf("(select (select %s (s.base %s)) (go.ix (s.off %s) %s))", H, x.t, x.t, ix)
+	}
+	ce := &CEnv{s: s, vars: map[string]Val{}, heap: st, old: st, pkg: cf.Pkg.Pkg}
+	if cf.Pkg == nil && cf.Parent() != nil {
+		ce.pkg = cf.Parent().Pkg.Pkg
+	}
+	ce.imports = s.eng.fileImports(cf)
+	ce.vars[cf.Params[0].Name()] = Val{t: elem(iv), typ: sl.Elem()}
+	ce.vars[cf.Params[1].Name()] = Val{t: elem(jv), typ: sl.Elem()}
+	ce.results = []Val{{t: fmt.Sprintf("(%s %s %s)", rf, iv, jv), typ: types.Typ[types.Int]}}
+	var conj []string
+	for _, e := range ct.Ensures {
+		if e.E == nil {
+			continue
+		}
+		f, err := ce.evalAssume(e.E)
+		if err != nil {
+			s.detached("slices.SortFunc comparator %s ensures %q: %v", cf.Name(), e.Src, err)
+			return false
+		}
+		conj = append(conj, f)
+	}
+	conj = append(conj, fmt.Sprintf("(<= (%s %s %s) 0)", rf, iv, jv))
+	s.trustedUsed["slices.SortFunc orders the slice by its comparator (engine model: every pair in index order satisfies the comparator's contract with a non-positive result)"] = true
+	s.assumeAt(st, fmt.Sprintf("(forall ((%s Int) (%s Int)) (! (=> (and (<= 0 %s) (< %s %s) (< %s (s.len %s))) %s) :pattern (%s %s)))", iv, jv, iv, iv, jv, jv, x.t, and(conj...), elem(iv), elem(jv)))
 	return true
 }
